@@ -251,8 +251,8 @@ class TMGRSchedulingComponent(rpu.ClientComponent):
                     pid = pilot['uid']
 
                     # if we have any early_bound tasks waiting for this pilots,
-                    # advance them now
-                    early_tasks = self._early.get(pid)
+                    # advance them now (and forget them: they are bound now)
+                    early_tasks = self._early.pop(pid, None)
                     if early_tasks:
 
                         for task in early_tasks:
